@@ -62,37 +62,92 @@ Definition obs_eqb (d : dir) (o : obs) : bool :=
   && Bool.eqb (negb (d_lock d)) (o_lockfree o) && Nat.eqb (d_runs d) (o_runs o)
   && Nat.eqb (d_completed d) (o_completed o).
 
+(* a second job process for the same directory, started while the first was in its body, and the
+   signal it received before it could take the run lock *)
+Record wrec := {
+  w_out : outcome;
+  w_death : sig * ctx;
+  w_pre : list ev;                (* observable effects of the second process before the signal *)
+  w_post : list ev;               (* ... and after it *)
+  w_obs : obs                     (* the directory when the second process is gone, the first still in its body *)
+}.
+
 (* one launch as recorded by the harness *)
 Record lrec := {
   l_out : outcome;
   l_death : option (sig * ctx);   (* the signal sent and the exception context of the line it was sent at *)
   l_pre : list ev;                (* observable effects before the signal (all of them when no death) *)
   l_post : list ev;               (* observable effects after it *)
-  l_obs : obs
+  l_obs : obs;
+  l_waiter : option wrec          (* double launch: what the second process did meanwhile *)
 }.
 
 (* exception contexts possible between effect k-1 and effect k: that of either neighbour, and - when the
    run leaves the try block for the exit phase without any effect in between (a BaseException that no
    clause catches passes the `except` lines) - the propagating context                                  *)
-Definition ctx_at (t : list (ctx * eff)) (k : nat) : list ctx :=
+Definition ctx_at_from (c0 : ctx) (t : list (ctx * eff)) (k : nat) : list ctx :=
   let before := match k with
-                | 0 => Some CProp
+                | 0 => Some c0
                 | S k' => match nth_error t k' with Some (c, _) => Some c | None => None end
                 end in
   let after := match nth_error t k with Some (c, _) => c | None => CAtexit end in
   (match before with Some c => [c] | None => [] end) ++ [after] ++
   (match before, after with Some CTry, CAtexit => [CProp] | _, _ => [] end).
+Definition ctx_at := ctx_at_from CProp.
 
 Definition check_at (v : variant) (d : dir) (r : lrec) (g : sig) (c : ctx) (k : nat) : bool :=
   let t := runner v (l_out r) (boot d) in
   let pre := firstn k (map snd t) in
   list_eqb ev_eqb (evs pre) (l_pre r)
   && existsb (ctx_eqb c) (ctx_at t k)
-  && list_eqb ev_eqb (evs (on_signal g c (run_effs pre (boot d)))) (l_post r)
+  && list_eqb ev_eqb (evs (on_signal v g c (run_effs pre (boot d)))) (l_post r)
   && obs_eqb (launch v d (l_out r) (Some (g, k, c))) (l_obs r).
+
+(* ---- double launch: the second process (w) dies before it gets the lock, then the first goes on *)
+Definition check_wait (v : variant) (d : dir) (w : wrec) (k : nat) : bool :=
+  let '(g, c) := w_death w in
+  let w0 := enter (at_body d) in
+  let pre := firstn k (before_lock (map snd (runner v (w_out w) w0))) in
+  list_eqb ev_eqb (evs pre) (w_pre w)
+  && existsb (ctx_eqb c) (ctx_at (runner v (w_out w) w0) k)
+  && list_eqb ev_eqb (evs (on_signal v g c (run_effs pre w0))) (w_post w)
+  && obs_eqb (double_mid v d (w_out w) (g, k, c)) (w_obs w).
+
+Definition check_rest (v : variant) (d : dir) (r : lrec) (ow : outcome) (dw : death) (g : sig) (c : ctx) (k : nat) : bool :=
+  let h := back (at_body d) (waiter_end v d ow dw) in
+  let t := from_body v (l_out r) h in
+  let pre := firstn k (map snd t) in
+  list_eqb ev_eqb (evs (map snd (upto_body (boot d)) ++ pre)) (l_pre r)
+  && existsb (ctx_eqb c) (ctx_at_from CTry t k)
+  && list_eqb ev_eqb (evs (on_signal v g c (run_effs pre h))) (l_post r)
+  && obs_eqb (double v d (l_out r) ow dw (Some (g, k, c))) (l_obs r).
+
+Definition check_double (v : variant) (d : dir) (r : lrec) (w : wrec) : option dir :=
+  if d_done d then None else
+  let '(gw, cw) := w_death w in
+  match find (check_wait v d w) (List.seq 0 5) with
+  | None => None
+  | Some kw =>
+      let dw := (gw, kw, cw) in
+      let h := back (at_body d) (waiter_end v d (w_out w) dw) in
+      match l_death r with
+      | None =>
+          if list_eqb ev_eqb (evs (map snd (upto_body (boot d)) ++ double_effects v (l_out r) None h)) (l_pre r)
+             && list_eqb ev_eqb [] (l_post r)
+             && obs_eqb (double v d (l_out r) (w_out w) dw None) (l_obs r)
+          then Some (double v d (l_out r) (w_out w) dw None) else None
+      | Some (g, c) =>
+          match find (check_rest v d r (w_out w) dw g c)
+                     (List.seq 0 (S (length (from_body v (l_out r) h)))) with
+          | Some k => Some (double v d (l_out r) (w_out w) dw (Some (g, k, c)))
+          | None => None
+          end
+      end
+  end.
 
 (* the model's directory after the launch, if the model explains the record *)
 Definition check_launch (v : variant) (d : dir) (r : lrec) : option dir :=
+  match l_waiter r with Some w => check_double v d r w | None =>
   match l_death r with
   | None =>
       if list_eqb ev_eqb (evs (trace v (l_out r) d)) (l_pre r)
@@ -104,7 +159,7 @@ Definition check_launch (v : variant) (d : dir) (r : lrec) : option dir :=
       | Some k => Some (launch v d (l_out r) (Some (g, k, c)))
       | None => None
       end
-  end.
+  end end.
 
 Fixpoint check_history (v : variant) (d : dir) (rs : list lrec) : bool :=
   match rs with
@@ -112,7 +167,10 @@ Fixpoint check_history (v : variant) (d : dir) (rs : list lrec) : bool :=
   | r :: rs' => match check_launch v d r with Some d' => check_history v d' rs' | None => false end
   end.
 
-(* a case starts from a freshly generated job directory *)
-Definition check_case (rs : list lrec) : bool := check_history Fixed fresh rs.
-(* diagnosis only: the same against the literal model of the code as found *)
+(* a case starts from a freshly generated job directory; the model is the repaired runner
+   (fixes/C10-1.diff and fixes/C10-2.diff) *)
+Definition check_case (rs : list lrec) : bool := check_history Guarded fresh rs.
+(* diagnosis only: the same against the literal models of earlier states of the code
+   (Fixed: /repo 3854c75, before fixes/C10-2.diff; Prefix: the pinned commit) *)
+Definition check_case_fixed (rs : list lrec) : bool := check_history Fixed fresh rs.
 Definition check_case_prefix (rs : list lrec) : bool := check_history Prefix fresh rs.
